@@ -76,7 +76,7 @@ fn check(ctx: &mut Ctx, case: &ProjectCase, seed: u64) {
 }
 
 fn run(ctx: &mut Ctx) {
-    let n = ctx.tier.pick(400, 25_000);
+    let n = ctx.tier.pick(2500, 25_000);
     let base = ctx.shard_seed().wrapping_mul(1_000_003);
     for i in 0..n {
         if !ctx.time_left() {
